@@ -4,10 +4,14 @@ S=/verif/seeded/$1; shift
 cd /repo && git status --short | grep -v '^??' | grep . && { echo "repo dirty"; exit 2; }
 git -C /repo apply $S/patch.diff || git -C /repo apply -3 $S/patch.diff || { echo "cannot apply"; exit 2; }
 cd /verif
+mkdir -p /verif/.cache/evkeep
 for p in "$@"; do
+  cp -f evidence/$p.json /verif/.cache/evkeep/$p.json 2>/dev/null
   out=$(./check $p --tier ${TIER:-quick} 2>&1); rc=$?
   echo "== seed=$(basename $S) check=$p rc=$rc $(echo "$out" | grep -E '^VIOLATION|INCONCLUSIVE' | head -1)"
   echo "$out" | grep -v "rapid\] draw" | grep -E "failed after|wrong|want|!=" | head -3 | cut -c1-400
+  echo "$(date +%F_%T) seed=$(basename $S) check=$p tier=${TIER:-quick} rc=$rc" >> /verif/seeded/RESULTS.log
+  cp -f /verif/.cache/evkeep/$p.json evidence/$p.json 2>/dev/null   # evidence must describe a run on the unchanged tree
 done
 git -C /repo checkout -- . ; git -C /repo reset -q
 git -C /repo status --short | grep -v '^??'
